@@ -726,6 +726,16 @@ func (o c09DescObj) fieldOf(x ssa.Value, field string) bool {
 				if a, isAlloc := fa.X.(*ssa.Alloc); isAlloc && o.cells[a] && strings.HasSuffix(fieldName(fa.X.Type(), fa.Field), "."+field) {
 					ok = true
 				}
+				// the cell read from inside a closure that captured it
+				if fv, isFV := fa.X.(*ssa.FreeVar); isFV && strings.HasSuffix(fieldName(fa.X.Type(), fa.Field), "."+field) {
+					bs := freeVarBindings(fv)
+					all := len(bs) > 0
+					for _, b := range bs {
+						a, isAlloc := b.(*ssa.Alloc)
+						all = all && isAlloc && o.cells[a]
+					}
+					ok = ok || all
+				}
 			}
 		case *ssa.Field:
 			if o.vals[u.X] && strings.HasSuffix(fieldName(u.X.Type(), u.Field), "."+field) {
